@@ -3376,6 +3376,73 @@ static void build_stmt(WorkList *list, ScopeStack *scopes, ASTNode *stmt, int in
                  * that the body does not get the constant's value inlined */
                 env_define_var_with_type_info(env, var, TYPE_INT, TYPE_UNKNOWN, NULL, false, create_void());
                 build_stmt(list, scopes, stmt->as.for_stmt.body, indent, env, fn_registry);
+            } else if (range && check_expression(range, env) == TYPE_ARRAY) {
+                /* for x in <array>: the array is evaluated once and its length is read once, then
+                 * x takes the elements by index (what the NanoVM does):
+                 * { DynArray* _for_arr = a; int64_t _for_len = ...; for (...) { T x = a[_for_i]; body } } */
+                Type elem_type = infer_array_element_type(range, env);
+                const char *elem_struct_name = NULL;
+                if (elem_type == TYPE_STRUCT && range->type == AST_IDENTIFIER) {
+                    Symbol *arr_sym = env_get_var(env, range->as.identifier);
+                    if (arr_sym) elem_struct_name = arr_sym->struct_type_name;
+                }
+
+                /* Like `at`, an element type that is not known is taken as int (the type checker
+                 * gives the loop variable the type int) */
+                const char *elem_c_type = "int64_t";
+                const char *elem_suffix = "int";
+                switch (elem_type) {
+                    case TYPE_U8:     elem_c_type = "uint8_t";     elem_suffix = "u8";     break;
+                    case TYPE_FLOAT:  elem_c_type = "double";      elem_suffix = "float";  break;
+                    case TYPE_STRING: elem_c_type = "const char*"; elem_suffix = "string"; break;
+                    case TYPE_BOOL:   elem_c_type = "bool";        elem_suffix = "bool";   break;
+                    case TYPE_ARRAY:  elem_c_type = "DynArray*";   elem_suffix = "array";  break;
+                    case TYPE_STRUCT: break;
+                    default:          elem_type = TYPE_INT;        break;
+                }
+
+                if (elem_type == TYPE_STRUCT && !elem_struct_name) {
+                    emit_indent_item(list, indent);
+                    emit_literal(list, "/* unsupported for-in pattern: array of unnamed struct type */;\n");
+                    break;
+                }
+
+                emit_indent_item(list, indent);
+                emit_literal(list, "{\n");
+                emit_indent_item(list, indent + 1);
+                emit_literal(list, "DynArray* _for_arr = ");
+                build_expr(list, range, env);
+                emit_literal(list, ";\n");
+                emit_indent_item(list, indent + 1);
+                emit_literal(list, "int64_t _for_len = dyn_array_length(_for_arr);\n");
+                emit_indent_item(list, indent + 1);
+                emit_literal(list, "for (int64_t _for_i = 0; _for_i < _for_len; _for_i++) {\n");
+                emit_indent_item(list, indent + 2);
+                if (elem_type == TYPE_STRUCT) {
+                    emit_formatted(list, "nl_%s %s = *((nl_%s*)dyn_array_get_struct(_for_arr, _for_i));\n",
+                                   elem_struct_name, var, elem_struct_name);
+                } else {
+                    emit_formatted(list, "%s %s = nl_array_at_%s(_for_arr, _for_i);\n", elem_c_type, var, elem_suffix);
+                }
+
+                /* The loop variable has the element type in the body only (the names are
+                 * freed with the environment, as for function parameters) */
+                int saved_symbol_count = env->symbol_count;
+                env_define_var_with_type_info(env, var, elem_type, TYPE_UNKNOWN, NULL, false, create_void());
+                Symbol *var_sym = env_get_var(env, var);
+                if (var_sym) {
+                    /* located like the type checker's entry for the loop variable, which it replaces */
+                    var_sym->def_line = stmt->line;
+                    var_sym->def_column = stmt->column;
+                    if (elem_type == TYPE_STRUCT) var_sym->struct_type_name = strdup(elem_struct_name);
+                }
+                build_stmt(list, scopes, stmt->as.for_stmt.body, indent + 2, env, fn_registry);
+                env->symbol_count = saved_symbol_count;
+
+                emit_indent_item(list, indent + 1);
+                emit_literal(list, "}\n");
+                emit_indent_item(list, indent);
+                emit_literal(list, "}\n");
             } else {
                 /* Fallback for non-range for loops */
                 emit_indent_item(list, indent);
